@@ -57,6 +57,19 @@ def c15 (g : GridSt) (ln : Nat) (t : List String) : Option (GridSt × List Strin
     | none => some (g, [out ln "ok" (bTok false)])
     | some b => some (g, [out ln "ok" (bTok true), out ln "nx" (isTok b.nx), out ln "lo" (fsTok b.lo), out ln "w" (fsTok b.w),
                           out ln "per" (isTok (b.per.map fun x => if x then 1 else 0)), out ln "data" (fsTok b.data)])
+  -- g.rtx <kind> P cvw w loW hiW loR hiR : a grid on a periodic variable over [loW, hiW) written in restart form and read by a
+  -- grid of the same variable set up over [loR, hiR)
+  | ["g.rtx", _kind, pP, cvw, w, loW, hiW, _loR, _hiR] =>
+    let P := fOfTok pP; let cvw := fOfTok cvw; let w := fOfTok w; let loW := fOfTok loW; let hiW := fOfTok hiW
+    let n := nbinsRound loW hiW w
+    let data : List Float := (List.range n.toNat).map fun i => Float.ofNat (i + 1)
+    let wfile : Cv.GridIO.GridFile Float :=
+      { nx := [n], lo := [loW], w := [w], per := [Cv.GridIO.periodicFlag (some P) cvw loW hiW], mult := 1, data := data }
+    match Cv.GridIO.decodeRestartOn [some P] [cvw] 1 (Cv.GridIO.encodeRestart wfile) with
+    | none => some (g, [out ln "ok" (bTok false)])
+    | some b => some (g, [out ln "ok" (bTok true), out ln "nx" (isTok b.nx), out ln "lo" (fsTok b.lo), out ln "w" (fsTok b.w),
+                          out ln "perw" (isTok (wfile.per.map fun x => if x then 1 else 0)),
+                          out ln "per" (isTok (b.per.map fun x => if x then 1 else 0)), out ln "data" (fsTok b.data)])
   | "g.counts" :: r => some ({ g with counts := r.map nOfTok }, [])
   | "g.rtgrad" :: kind :: opt =>
     let withCount := !(opt.contains "nocount")
